@@ -218,8 +218,10 @@ func prefilterFunc(pattern string) func(string) bool {
 		// A literal is the prefix/suffix constraint only when it survived
 		// filterShort (len >= 2), meaning it IS the first/last literal in the
 		// pattern and not replaced by a longer one that appeared elsewhere.
-		usePrefix := hasBeginAnchor(re) && len(origFirst) >= 2
-		useSuffix := hasEndAnchor(re) && len(origLast) >= 2
+		// ... and only when that literal is adjacent to the anchor: in \A\d+foo the literal "foo"
+		// is the first one, yet it does not start the input.
+		usePrefix := hasBeginAnchor(re) && len(origFirst) >= 2 && literalNextToAnchor(re, true, caseInsensitive) == origFirst
+		useSuffix := hasEndAnchor(re) && len(origLast) >= 2 && literalNextToAnchor(re, false, caseInsensitive) == origLast
 		if !usePrefix && !useSuffix {
 			// No anchor: sort longest-first for best early exit.
 			slices.SortFunc(filtered, func(a, b string) int { return len(b) - len(a) })
@@ -1003,6 +1005,30 @@ func hasEndAnchor(re *syntax.Regexp) bool {
 	return false
 }
 
+// literalNextToAnchor returns the literal that immediately follows \A (begin) or immediately
+// precedes \z (!begin) in the top-level concatenation, or "" if something else sits there.
+func literalNextToAnchor(re *syntax.Regexp, begin bool, ci bool) string {
+	for re.Op == syntax.OpCapture {
+		re = re.Sub[0]
+	}
+	if re.Op != syntax.OpConcat || len(re.Sub) < 2 {
+		return ""
+	}
+	var anchor, next *syntax.Regexp
+	if begin {
+		anchor, next = re.Sub[0], re.Sub[1]
+	} else {
+		anchor, next = re.Sub[len(re.Sub)-1], re.Sub[len(re.Sub)-2]
+	}
+	if begin && anchor.Op != syntax.OpBeginText || !begin && anchor.Op != syntax.OpEndText {
+		return ""
+	}
+	for next.Op == syntax.OpCapture {
+		next = next.Sub[0]
+	}
+	return rawLiteral(next, ci)
+}
+
 // hasPrefixFoldASCII reports whether s begins with prefix (ASCII case-insensitive).
 // prefix must already be lowercase.
 func hasPrefixFoldASCII(s, prefix string) bool {
@@ -1108,8 +1134,10 @@ func buildCombinedPF(v combinedRequired, ci bool, re *syntax.Regexp) func(string
 
 	var allPF func(string) bool
 	if len(filteredAll) > 0 {
-		usePrefix := hasBeginAnchor(re) && len(origFirst) >= 2
-		useSuffix := hasEndAnchor(re) && len(origLast) >= 2
+		// ... and only when that literal is adjacent to the anchor: in \A\d+foo the literal "foo"
+		// is the first one, yet it does not start the input.
+		usePrefix := hasBeginAnchor(re) && len(origFirst) >= 2 && literalNextToAnchor(re, true, ci) == origFirst
+		useSuffix := hasEndAnchor(re) && len(origLast) >= 2 && literalNextToAnchor(re, false, ci) == origLast
 		if !usePrefix && !useSuffix {
 			slices.SortFunc(filteredAll, func(a, b string) int { return len(b) - len(a) })
 		}
